@@ -58,6 +58,71 @@ pub fn run(ctx: &mut Ctx) {
             manager_case(ctx, &vt);
         });
     }
+    // vtrees made by the library's own constructors over label lists with gaps and in any
+    // order: every given variable is exactly one leaf; the manager agrees with the shape
+    for case in ctx.cases("vtree_ctor", 400, true) {
+        ctx.run_case("vtree_ctor", case, ctor_case);
+    }
+}
+
+fn from_rsdd(t: &VTree) -> Vt {
+    if t.is_leaf() {
+        Vt::Leaf(t.extract_leaf().value_usize())
+    } else {
+        Vt::Node(Box::new(from_rsdd(t.left())), Box::new(from_rsdd(t.right())))
+    }
+}
+
+fn ctor_case(ctx: &mut Ctx, rng: &mut Rng) {
+    let k = rng.range(1, 12);
+    let dense = rng.chance(1, 3);
+    let mut universe: Vec<usize> = (0..(if dense { k } else { 2 * k + 3 })).collect();
+    rng.shuffle(&mut universe);
+    let labels: Vec<usize> = universe[..k].to_vec();
+    let lbls: Vec<VarLabel> = labels.iter().map(|x| VarLabel::new(*x as u64)).collect();
+    let kind = rng.below(4);
+    let (name, tree) = match kind {
+        0 => ("right_linear".to_string(), VTree::right_linear(&lbls)),
+        1 => ("left_linear".to_string(), VTree::left_linear(&lbls)),
+        2 => {
+            // S9: even_split(order, s) needs at least 2^s labels
+            let mut s = 0;
+            while (1usize << (s + 1)) <= k && rng.chance(2, 3) {
+                s += 1;
+            }
+            (format!("even_split/{}", s), VTree::even_split(&lbls, s))
+        }
+        _ => {
+            let bias = [0.0, 0.25, 0.5, 0.9][rng.below(4)];
+            (format!("rand_split/{}", bias), VTree::rand_split(&lbls, bias))
+        }
+    };
+    ctx.count("library_constructed_vtrees", 1);
+    ctx.seen("vtree_constructors", name.split('/').next().unwrap());
+    let vt = from_rsdd(&tree);
+    let info = json!({"constructor": name, "labels": labels, "vtree": vt.to_json()});
+    let mut got = vt.leaves();
+    got.sort();
+    let mut want = labels.clone();
+    want.sort();
+    if got != want {
+        ctx.violation("vtree.ctor.leaves", "a library-constructed vtree does not contain every given variable as exactly one leaf", json!({"input": info}));
+        return;
+    }
+    let flat: Vec<usize> = VTree::flatten_vtree(&tree).iter().map(|l| l.value_usize()).collect();
+    if flat != vt.leaves() || !VTree::is_valid_vtree(&tree) || !tree.contains_leaf(&|l: &VarLabel| l.value_usize() == labels[0])
+        || tree.contains_leaf(&|l: &VarLabel| !labels.contains(&l.value_usize()))
+    {
+        ctx.violation("vtree.ctor.flatten", "flatten_vtree / is_valid_vtree / contains_leaf disagree with the leaves of the tree", json!({"input": info}));
+    }
+    if k >= 2 {
+        // a tree with a repeated leaf is not valid
+        let dup = VTree::new_node(Box::new(tree.clone()), Box::new(VTree::new_leaf(lbls[rng.below(k)])));
+        if VTree::is_valid_vtree(&dup) {
+            ctx.violation("vtree.ctor.valid", "is_valid_vtree accepts a tree with a repeated variable", json!({"input": info}));
+        }
+    }
+    manager_case_opt(ctx, &vt, dense);
 }
 
 fn gen(rng: &mut Rng, max_vars: usize) -> Clauses {
@@ -321,6 +386,11 @@ fn same_tree(a: &VTree, b: &Vt) -> bool {
 }
 
 fn manager_case(ctx: &mut Ctx, vt: &Vt) {
+    manager_case_opt(ctx, vt, true)
+}
+
+/// `dense`: the labels are a permutation of 0..k (only then is the variable count compared, S12)
+fn manager_case_opt(ctx: &mut Ctx, vt: &Vt, dense: bool) {
     let man = VTreeManager::new(vt.to_rsdd());
     let nodes = vt.inorder();
     let m = nodes.len();
@@ -349,8 +419,6 @@ fn manager_case(ctx: &mut Ctx, vt: &Vt) {
     ranges(vt, 0, &mut rg);
     rg.sort();
     // index arithmetic: vtree(idx) is the in-order node, var_index finds each leaf
-    let idx_of = |i: usize| man.lca(man.var_index(VarLabel::new(0)), man.var_index(VarLabel::new(0))).value() * 0 + i;
-    let _ = idx_of;
     // obtain VTreeIndex values through the public API: var_index for leaves, lca for internal nodes
     let mut handle: Vec<Option<rsdd::repr::VTreeIndex>> = vec![None; m];
     for (i, nd) in nodes.iter().enumerate() {
@@ -444,11 +512,13 @@ fn manager_case(ctx: &mut Ctx, vt: &Vt) {
     }
     // variable count (labels are a permutation of 0..k here, S12)
     let k = lv.len();
-    if man.num_vars() != k {
+    if !dense {
+        ctx.count("managers_over_label_sets_with_gaps", 1);
+    } else if man.num_vars() != k {
         ctx.violation("vtree.num_vars", "VTreeManager::num_vars is not the number of variables",
             json!({"got": man.num_vars(), "expected": k, "input": info}));
     }
-    if vt.to_rsdd().num_vars() != k {
+    if dense && vt.to_rsdd().num_vars() != k {
         ctx.violation("vtree.num_vars_tree", "VTree::num_vars is not the number of variables",
             json!({"got": vt.to_rsdd().num_vars(), "expected": k, "input": info}));
     }
